@@ -4,7 +4,7 @@ from engine import atoms
 from engine.rulelib import fnview
 from engine.cfg import render, strip_ref, peel, subexprs
 
-CRATES = ["lightning_signer"]
+CRATES = ["lightning_signer", "vls_persist"]
 LS = "lightning_signer::"
 CH = LS + "channel::Channel"
 VAL = LS + "policy::validator::Validator"
@@ -80,6 +80,8 @@ def r41(ctx):
                sample="make_funding_redeemscript(own, counterparty)")
         ctx.ob("R4.1", render(peel(a[3])) == "self.setup.channel_value_sat", f"{b1.name}/value",
                f"signs for value `{render(a[3])[:80]}`", where=f"{cb.file}:{c.line}", sample="setup.channel_value_sat")
+    if "vls_persist" in {bb.d.krate for bb in p.bodies.values()}:
+        ctx.floor("R4.1", "ChannelEntry literal in KVVPersister::update_channel", _restored_value(ctx), 1)
     b2 = p.fn(f"{CH}::sign_counterparty_commitment_tx_phase2")
     s2 = _sign_sites(ctx, b2)
     ctx.floor("R4.1", "signing call (semantic entry)", len(s2), 1)
@@ -88,6 +90,37 @@ def r41(ctx):
         ok = render(peel(a[1])).startswith(f"{CH}::make_counterparty_commitment_tx(self,")
         ctx.ob("R4.1", ok, f"{b2.name}/signs-recomposed", f"semantic entry signs `{render(a[1])[:160]}`", where=f"{cb.file}:{c.line}",
                sample="signed <- make_counterparty_commitment_tx(..)")
+
+
+def _restored_value(ctx):
+    """after a restart the LDK signer of a ready channel is rebuilt with the channel's own value: the stored entry's
+    channel_value_satoshis is written from setup.channel_value_sat and is what new_from_persistence hands to the keys
+    manager (the semantic entry signs through that signer: a wrong value gives a signature over a different funding amount)"""
+    p = ctx.prog
+    n = 0
+    for b in p.bodies.values():
+        if b.d.krate == "vls_persist" and b.name.endswith("Persist>::update_channel") and "KVVPersister" in b.name:
+            bv = fnview(ctx, b)
+            for bb, bi, si, st in R.constructions(p, "vls_persist::model::ChannelEntry"):
+                if bb is not b:
+                    continue
+                n += 1
+                vals = dict(zip(st.rv.a[3], st.rv.ops))
+                e = bv.expr(vals["channel_value_satoshis"])
+                ok = any(x[0] == "field" and x[3] == "channel_value_sat" and x[2].endswith("ChannelSetup") for x in subexprs(e))
+                ctx.ob("R4.1", ok, f"{b.name}/stores-channel-value",
+                       f"update_channel stores `{render(e)[:80]}` as the channel value: the signer rebuilt after a restart signs the "
+                       f"counterparty commitment (semantic entry) over a different funding amount", where=f"{b.file}:{st.line}",
+                       sample="entry.channel_value_satoshis <- channel.setup.channel_value_sat")
+    if p.has_fn(LS + "node::Node::new_from_persistence") and n:
+        nb = p.fn(LS + "node::Node::new_from_persistence")
+        nv = fnview(ctx, nb)
+        for bi, ln, c in R.call_blocks(nv, lambda x: x.endswith("MyKeysManager::get_channel_keys_with_id")):
+            e = nv.expr(c.args[2])
+            ok = any(x[0] == "field" and x[3] in ("channel_value_satoshis", "channel_value_sat") for x in subexprs(e))
+            ctx.ob("R4.1", ok, f"{nb.name}/restored-channel-value", f"the restored signer is built for value `{render(e)[:80]}`",
+                   where=f"{nb.file}:{ln}", sample="value <- channel_entry.channel_value_satoshis")
+    return n
 
 
 def _only_under(root, target, call_frags):
